@@ -8,6 +8,7 @@ import Stingray.Driver.Copybook
 import Stingray.Driver.History
 import Stingray.Driver.RefFormat
 import Stingray.Driver.Json
+import Stingray.Driver.Facade
 /-!
 Line protocol driver: `lake env lean --run Driver.lean < requests > answers`.
 One request per line: `<family> <op> <args…>` separated by single spaces; one answer line each.
@@ -32,6 +33,7 @@ def dispatch (st : DState) (line : String) : DState × String :=
   | "HIS" :: rest => (st, His.handle rest)
   | "REF" :: rest => (st, Ref.handle rest)
   | "JSN" :: rest => (st, Jsn.handle rest)
+  | "FAC" :: rest => (st, Fac.handle rest)
   | _ => (st, "bad-op")
 
 partial def loop (h : IO.FS.Stream) (out : IO.FS.Stream) (st : DState) : IO Unit := do
